@@ -305,4 +305,4 @@ def max_depth(evs):
     return best
 
 
-LEVEL = "translation_validation"
+LEVEL = "proof"
